@@ -168,4 +168,12 @@ PROPS = {
         "floors": ["c02:isolation", "c02:random"],
         "assumptions": COMMON_ASSUMPTIONS + ["identifiers are drawn from word lists whose case conversion is unambiguous (fooId <-> foo_id)"],
     },
+    "C12": {
+        "shards": 16,
+        "level_text": "Single-field objects carrying every rule of the statement's list (systematic: per field type each rule at absent / zero / boundary / typical values, both values of every boolean, plain / required / optional; plus random combinations) are compiled by the real compiler; dynamic messages of the compiled types are populated with candidate values around every boundary the rules induce (below / at / above each bound, shortest / longest strings incl. multi-byte, matching / non-matching patterns, undefined enum numbers, absent vs zero) and validated with bufbuild/protovalidate-go; the verdict must equal the harness's own evaluation of the declared rules.",
+        "level_note": "The reference evaluator is harness code implementing JSON-schema style inclusivity and protovalidate's presence semantics (a field without presence holding its zero value is absent for 'required', rules apply to zero values; unset fields with presence skip their rules).",
+        "rule": "one evaluation per (declaration, candidate value); non-trivial = the candidate sets the field; distinct by hash of (declaration text, candidate).",
+        "floors": ["c12:systematic:" + k for k in ["string", "key", "integer", "bytes", "bool", "enum", "array"]] + ["c12:random:random"],
+        "assumptions": COMMON_ASSUMPTIONS,
+    },
 }
